@@ -29,4 +29,12 @@ theorem source_iterator_is_window {α : Type} (day utcDay : α → Int) (fromD t
     drain (Gen.L.iterNext day utcDay fromD toD) (l.length + 1) l = viewOf day (some fromD) (some toD) l :=
   Tables.iterator_is_window day utcDay fromD toD l (l.length + 1) (by omega)
 
+
+/-- **tie to the source (translator)**: the loop of `ComputedData._create_yearly_gain_loss_list` — key, default amounts, the four running sums
+    and the `break` at the to-date as translated from the Python source on this run (`Gen/Loops.lean`), the dictionary discipline
+    (`setdefault`, then assignment) as the translator insists on — computes the model's `yearly`, the very function `model_lines_are_sums` is
+    about.  Hypothesis: no fraction is a lot-less disposal (the engine never produces one: a fraction without a lot is an earning). -/
+theorem source_yearly_loop_is_model (period : Int) (fs : List Fraction) (h : ∀ f ∈ fs, Tables.lotlessDisposal f = false) :
+    fs.foldlM (Tables.yearlyRound period) [] = some (yearly period fs) := Tables.yearly_loop_is_yearly period fs h
+theorem source_yearly_cut (d t : Int) : Gen.L.yearlyStops d t = !decide (d ≤ t) := Tables.yearly_cut d t
 end Rp2.C06
